@@ -78,11 +78,22 @@ def _labelled_expr(ctx: Ctx, fn: FunctionInfo, e: ast.AST, seen: set, depth: int
         if not defs:
             return True, ""
         # labelled if some later statement passes the name to a labeller before the return, or every definition is labelled
-        for c in walk_local(fn.node):
-            if isinstance(c, ast.Call) and call_name(c) in LABELLERS and c.args and isinstance(c.args[0], ast.Name) and c.args[0].id == e.id \
-                    and c.lineno <= at.lineno:
-                return True, ""
-        for d in defs:
+        from ..astutil import block_of
+        from ..frontend import enclosing_stmt
+        try:
+            blk, idx = block_of(at if isinstance(at, ast.stmt) else enclosing_stmt(at))
+        except Exception:
+            blk, idx = fn.node.body, len(fn.node.body)
+        # a labelling call on this name earlier in the same block (dominates the return)
+        for st in blk[:idx]:
+            for c in ast.walk(st):
+                if isinstance(c, ast.Call) and call_name(c) in LABELLERS and c.args and isinstance(c.args[0], ast.Name) and c.args[0].id == e.id \
+                        and not isinstance(st, (ast.If, ast.For, ast.While, ast.Try)):
+                    return True, ""
+        # otherwise every definition that can reach this return must itself be labelled: the definitions in this block
+        # (latest first), else all definitions in the function
+        local_defs = [a for a in blk[:idx] if isinstance(a, ast.Assign) and any(isinstance(t, ast.Name) and t.id == e.id for t in a.targets)]
+        for d in (local_defs[-1:] or defs):
             ok, why = _labelled_expr(ctx, fn, d.value, seen, depth, at)
             if not ok:
                 return ok, why
